@@ -328,7 +328,8 @@ func c01ReadBytesDelivered(c *Ctx) {
 // (url.URL.ForceQuery - a bare trailing "?" -, Opaque, the raw path are lost). Clause: in the HTTP/2 client's
 // AppendHeaders a store to Request.URL that can run for an HTTP/2-sourced request (not under the isReqHeader == false
 // edge) installs a copy of the received URL (an object initialised with *req.URL), of which only single fields may then be
-// changed.
+// changed - or, since the variables carry the bare '?' too (repair 91), a URL whose Path, RawPath, RawQuery, ForceQuery and
+// Scheme are all set (seed C01-6 became harmless by that repair and the rule must not report it any more).
 func c01H2URLFromReceived(c *Ctx) {
 	fn := c.M("pkg/stream/http2", "clientStream", "AppendHeaders")
 	if fn == nil {
@@ -378,7 +379,27 @@ func c01H2URLFromReceived(c *Ctx) {
 				}
 			}
 		}
-		c.Check("C01.R9", key, st.Pos(), derived, "a copy of the received URL (only single fields changed afterwards)", "the HTTP/2 client replaces the URL of a request that came from an HTTP/2 downstream by one composed anew from variables: what is not carried by them (a bare trailing '?', an opaque or raw form) is lost, so the forwarded :path is no longer the received one although no rewrite is configured")
+		// ... or a URL composed anew that carries every component of a request target: path, raw path, query and the bare
+		// '?' (ForceQuery). Since repair 91 the variables do carry all of them (C01.R13 decides that ForceQuery follows the
+		// presence of the query variable), so such a URL is the received target again.
+		if al, isA := st.Val.(*ssa.Alloc); isA && !derived {
+			have := map[string]bool{}
+			for _, r := range refs(al) {
+				if fa, isF := r.(*ssa.FieldAddr); isF {
+					if _, f2, _, ok2 := fieldAddrInfo(fa); ok2 {
+						for _, rr := range refs(fa) {
+							if s2, isS := rr.(*ssa.Store); isS && s2.Addr == ssa.Value(fa) {
+								have[f2] = true
+							}
+						}
+					}
+				}
+			}
+			if have["Path"] && have["RawPath"] && have["RawQuery"] && have["ForceQuery"] && have["Scheme"] {
+				derived = true
+			}
+		}
+		c.Check("C01.R9", key, st.Pos(), derived, "a copy of the received URL (only single fields changed afterwards), or a complete composition", "the HTTP/2 client replaces the URL of a request that came from an HTTP/2 downstream by one composed anew from variables: what is not carried by them (a bare trailing '?', an opaque or raw form) is lost, so the forwarded :path is no longer the received one although no rewrite is configured")
 	})
 	if n < 1 {
 		c.Unresolved("C01.R9", "stores to Request.URL in the HTTP/2 client's AppendHeaders")
